@@ -30,6 +30,34 @@ func (p walkPolicy) wire() string {
 	return fmt.Sprintf("%s/%s/%s/%d", b01(p.hasPre), b01(p.hasPost), pl, p.abort)
 }
 
+// c18cfg selects how walkTrace presents the tree (see the custom-accessors family).
+var c18cfg struct {
+	custom string
+	shared *cm.WalkOptions
+}
+
+// presented applies the same presentation to the wire form of the tree (what the model walks).
+func presented(w *wnode, custom string) *wnode {
+	n := *w
+	n.kids = nil
+	kids := w.kids
+	switch custom {
+	case "cap2":
+		if len(kids) > 2 {
+			kids = kids[:2]
+		}
+	case "reverse":
+		kids = append([]*wnode(nil), kids...)
+		for i, j := 0, len(kids)-1; i < j; i, j = i+1, j-1 {
+			kids[i], kids[j] = kids[j], kids[i]
+		}
+	}
+	for _, k := range kids {
+		n.kids = append(n.kids, presented(k, custom))
+	}
+	return &n
+}
+
 func nodeID(n cm.Node) string {
 	if b := n.Block(); b != nil {
 		return fmt.Sprintf("b%d:%d:%d", int(b.Kind()), b.Span().Start, b.Span().End)
@@ -46,6 +74,22 @@ func walkTrace(root cm.Node, virtual []*cm.RootBlock, p walkPolicy) (trace strin
 	var evs []string
 	pres, posts := 0, 0
 	opts := &cm.WalkOptions{}
+	if c18cfg.shared != nil {
+		// ONE options value reused across walks, its accessors replaced between them
+		opts = c18cfg.shared
+		opts.Pre, opts.Post, opts.ChildCount, opts.Child = nil, nil, nil, nil
+	}
+	switch c18cfg.custom {
+	case "cap2": // a custom ChildCount WITHOUT a custom Child: every node presents at most two children
+		opts.ChildCount = func(n cm.Node) int {
+			if k := n.ChildCount(); k < 2 {
+				return k
+			}
+			return 2
+		}
+	case "reverse": // a custom Child WITHOUT a custom ChildCount: children presented in reverse order
+		opts.Child = func(n cm.Node, i int) cm.Node { return n.Child(n.ChildCount() - 1 - i) }
+	}
 	if virtual != nil {
 		opts.ChildCount = func(n cm.Node) int {
 			if n == (cm.Node{}) {
@@ -189,6 +233,27 @@ func runC18(c *Ctx) {
 				one(fam, r.AsNode(), nil, wire, nodes, genPolicy(newRng(c.Seed, "c18-pol", idx*1000+ri*10+k), nodes), doc)
 			}
 		}
+		// custom accessors one at a time (ChildCount without Child, Child without ChildCount) on ONE reused options
+		// value: default walk first, then each presentation; every trace must be the model's walk of the presented tree
+		if idx%3 == 0 {
+			shared := &cm.WalkOptions{}
+			for ri, r := range res.roots {
+				w, err := parseWire(wireRoot(r))
+				if err != nil {
+					continue
+				}
+				for k, custom := range []string{"", "cap2", "reverse", ""} {
+					c18cfg.custom, c18cfg.shared = custom, shared
+					pw := presented(w, custom)
+					pol := genPolicy(newRng(c.Seed, "c18-cpol", idx*1000+ri*10+k), countW(pw))
+					if k == 0 {
+						pol = walkPolicy{hasPre: true, hasPost: true, prune: map[int]bool{}, abort: -1}
+					}
+					one("custom-accessors", r.AsNode(), nil, pw.String(), countW(pw), pol, doc)
+				}
+			}
+			c18cfg.custom, c18cfg.shared = "", nil
+		}
 		if len(res.roots) > 0 && len(res.roots) < 8 {
 			// virtual root with custom child functions
 			var sb strings.Builder
@@ -227,4 +292,12 @@ func runC18(c *Ctx) {
 	}
 	corr.Flush()
 	orc.Flush()
+}
+
+func countW(w *wnode) int {
+	n := 1
+	for _, k := range w.kids {
+		n += countW(k)
+	}
+	return n
 }
